@@ -741,3 +741,186 @@ Section NamerProofs.
     - rewrite IH, Hadd. intuition congruence.
   Qed.
 End NamerProofs.
+
+(* ---- facts about ParseTypeRef on EVERY string (both versions of the loop) ---- *)
+
+Lemma parse_base_spec : forall s, exists t, parse_base s = Ok (PT t) /\ t_args t = [] /\ print t = s.
+Proof.
+  intros s. unfold parse_base. destruct (last_index_byte dot s) as [i|] eqn:E.
+  - destruct (0 <? i) eqn:E0.
+    + apply last_index_byte_spec in E. destruct E as (a & b & -> & <- & _).
+      rewrite substr_prefix, substr_after_sep. cbn [bind].
+      eexists. split; [reflexivity|]. split; [reflexivity|].
+      rewrite print_leaf. unfold head_str. apply Nat.ltb_lt in E0.
+      destruct a; [cbn in E0; lia|]. cbn [is_nil]. rewrite <- app_assoc. reflexivity.
+    + eexists. split; [reflexivity|]. split; [reflexivity|]. apply print_leaf.
+  - eexists. split; [reflexivity|]. split; [reflexivity|]. apply print_leaf.
+Qed.
+
+Lemma last_case : forall l : bytes, l = [] \/ exists m x, l = m ++ [x].
+Proof. induction l as [|x l _] using rev_ind; [left; reflexivity|right; eauto]. Qed.
+
+Lemma ends_split : forall a b, ends_with_rbr (a ++ lbr :: b) = true -> exists m, b = m ++ [rbr].
+Proof.
+  intros a b H. unfold ends_with_rbr in H.
+  destruct (last_index_byte rbr (a ++ lbr :: b)) as [j|] eqn:E; [|discriminate].
+  apply Nat.eqb_eq in H. apply last_index_byte_spec in E. destruct E as (a' & b' & Hs & Hl & _).
+  assert (Hb' : b' = []).
+  { apply (f_equal (@length ascii)) in Hs. rewrite !app_length in Hs. cbn [length] in Hs.
+    rewrite app_length in H. cbn [length] in H. destruct b'; [reflexivity|]. cbn [length] in Hs. lia. }
+  subst b'. destruct (last_case b) as [->|(m & x & ->)].
+  - apply app_inj_tail in Hs. destruct Hs as [_ Hs]. discriminate.
+  - exists m. change (a ++ lbr :: m ++ [x]) with (a ++ (lbr :: m) ++ [x]) in Hs.
+    rewrite app_assoc in Hs. apply app_inj_tail in Hs. destruct Hs as [_ ->]. reflexivity.
+Qed.
+
+Lemma norm_ok : forall X r, norm X = Ok r -> exists r', X = Ok r'.
+Proof. intros [[st acc|e]| |] r H; cbn in H; try discriminate; eauto. Qed.
+
+Lemma loop_acc_total : forall rec fixed L,
+  (forall x, length x <= L -> exists r, rec x = Ok r) ->
+  forall rest d cur acc, length cur + length rest <= L ->
+  exists r, loop_acc rec fixed rest d cur acc = Ok r.
+Proof.
+  intros rec fixed L Hrec. induction rest as [|c rest IH]; intros d cur acc Hlen.
+  - cbn [loop_acc]. unfold fin. destruct (Hrec cur) as (r & ->); [lia|]. cbn [bind]. destruct r; eauto.
+  - assert (Hstep : forall d', exists r, loop_acc rec fixed rest d' (cur ++ [c]) acc = Ok r).
+    { intros d'. apply IH. rewrite app_length. cbn [length] in *. lia. }
+    cbn [loop_acc].
+    destruct (Ascii.eqb c lbr); [apply Hstep|].
+    destruct (Ascii.eqb c rbr); [apply Hstep|].
+    destruct (Ascii.eqb c comma); [|apply Hstep].
+    destruct (at_top d); [|apply Hstep].
+    destruct (Hrec cur) as (r & ->); [lia|]. cbn [bind]. destruct r; [|eauto].
+    apply IH. cbn [length] in *. lia.
+Qed.
+
+Theorem parse_total : forall fixed fuel s, length s < fuel -> exists r, parse fixed fuel s = Ok r.
+Proof.
+  intros fixed. induction fuel as [|f IH]; intros s Hlen; [lia|].
+  rewrite parse_S.
+  assert (Hbase : exists r, parse_base s = Ok r) by (destruct (parse_base_spec s) as (t & H & _); eauto).
+  destruct (index_byte lbr s) as [i|] eqn:E; [|exact Hbase].
+  destruct (0 <? i) eqn:E0; [|exact Hbase].
+  destruct (ends_with_rbr s) eqn:Er; [|eauto].
+  apply index_byte_spec in E. destruct E as (a & b & -> & <- & Hna).
+  destruct (ends_split a b Er) as (m & ->).
+  rewrite substr_prefix. cbn [bind].
+  assert (Hls : length (a ++ lbr :: m ++ [rbr]) = length a + length m + 2)
+    by (rewrite app_length; cbn [length]; rewrite app_length; cbn [length]; lia).
+  destruct (IH a) as (r0 & ->); [lia|]. cbn [bind].
+  destruct r0 as [[p n a0]|e]; [|eauto].
+  replace (substr (a ++ lbr :: m ++ [rbr]) (length a + 1) (length (a ++ lbr :: m ++ [rbr]) - 1))
+    with (@Ok bytes m).
+  2:{ pose proof (substr_mid (a ++ [lbr]) m [rbr]) as Hs.
+      rewrite <- app_assoc in Hs. cbn [app] in Hs. rewrite app_length in Hs. cbn [length] in Hs.
+      rewrite Hls. replace (length a + length m + 2 - 1) with (length a + 1 + length m) by lia.
+      symmetry. exact Hs. }
+  cbn [bind].
+  destruct (loop_acc_total (parse fixed f) fixed (length m)) with (rest := m) (d := 0%Z) (cur := @nil ascii) (acc := a0)
+    as (r & Hr).
+  - intros x Hx. apply IH. lia.
+  - cbn [length]. lia.
+  - rewrite <- type_list_loop_acc in Hr. apply norm_ok in Hr. destruct Hr as (r' & ->). cbn [bind].
+    destruct r'; cbn [finish]; eauto.
+Qed.
+
+Definition sepcat (l : list bytes) : bytes := concat (map (fun y => y ++ [comma]) l).
+
+Lemma join_snoc : forall l x, join_comma (l ++ [x]) = sepcat l ++ x.
+Proof.
+  induction l as [|y l IH]; intros x.
+  - cbn. apply app_nil_r.
+  - cbn [app]. destruct l as [|z l'].
+    + cbn. rewrite !app_nil_r, <- app_assoc. reflexivity.
+    + change ((z :: l') ++ [x]) with (z :: l' ++ [x]). rewrite join_comma_cons2.
+      change (z :: l' ++ [x]) with ((z :: l') ++ [x]). rewrite IH.
+      unfold sepcat. cbn [map concat]. rewrite <- !app_assoc. reflexivity.
+Qed.
+
+Lemma loop_acc_print_inv : forall rec fixed,
+  (forall x t, rec x = Ok (PT t) -> print t = x) ->
+  forall rest d cur acc st l,
+    loop_acc rec fixed rest d cur acc = Ok (LOk st l) ->
+    l <> [] /\ join_comma (map print l) = sepcat (map print acc) ++ cur ++ rest.
+Proof.
+  intros rec fixed Hrec. induction rest as [|c rest IH]; intros d cur acc st l H.
+  - cbn [loop_acc] in H. unfold fin in H. destruct (rec cur) as [[t|e]| |] eqn:E; cbn [bind] in H; try discriminate.
+    inversion H; subst. split; [intros Hx; apply app_eq_nil in Hx; destruct Hx; discriminate|].
+    rewrite map_app. cbn [map]. rewrite join_snoc, (Hrec _ _ E), app_nil_r. reflexivity.
+  - assert (Hstep : forall d', loop_acc rec fixed rest d' (cur ++ [c]) acc = Ok (LOk st l) ->
+              l <> [] /\ join_comma (map print l) = sepcat (map print acc) ++ cur ++ c :: rest).
+    { intros d' H'. apply IH in H'. destruct H' as [H1 H2]. split; [exact H1|].
+      rewrite H2, <- !app_assoc. reflexivity. }
+    cbn [loop_acc] in H.
+    destruct (Ascii.eqb c lbr); [eapply Hstep; exact H|].
+    destruct (Ascii.eqb c rbr); [eapply Hstep; exact H|].
+    destruct (Ascii.eqb c comma) eqn:Ec; [|eapply Hstep; exact H].
+    destruct (at_top d); [|eapply Hstep; exact H].
+    destruct (rec cur) as [[t|e]| |] eqn:E; cbn [bind] in H; try discriminate.
+    apply IH in H. destruct H as [H1 H2]. split; [exact H1|].
+    apply Ascii.eqb_eq in Ec. subst c.
+    rewrite H2, map_app. cbn [map app]. unfold sepcat. rewrite map_app, concat_app. cbn [map concat].
+    rewrite (Hrec _ _ E), app_nil_r, <- !app_assoc. reflexivity.
+Qed.
+
+(* whenever ParseTypeRef returns a tree, String() of that tree is the input *)
+Theorem print_parse_any : forall fixed fuel s t, parse fixed fuel s = Ok (PT t) -> print t = s.
+Proof.
+  intros fixed. induction fuel as [|f IH]; intros s t H; [discriminate|].
+  rewrite parse_S in H.
+  assert (Hbase : parse_base s = Ok (PT t) -> print t = s).
+  { intros Hb. destruct (parse_base_spec s) as (t' & H1 & _ & H3). congruence. }
+  destruct (index_byte lbr s) as [i|] eqn:E; [|auto].
+  destruct (0 <? i) eqn:E0; [|auto].
+  destruct (ends_with_rbr s) eqn:Er; [|discriminate].
+  apply index_byte_spec in E. destruct E as (a & b & -> & <- & Hna).
+  destruct (ends_split a b Er) as (m & ->).
+  rewrite substr_prefix in H. cbn [bind] in H.
+  destruct f as [|f']; [discriminate|].
+  rewrite (parse_no_bracket fixed f' a Hna) in H.
+  destruct (parse_base_spec a) as (t0 & Ht0 & Hargs0 & Hprint0). rewrite Ht0 in H. cbn [bind] in H.
+  destruct t0 as [p n a0]. cbn [t_args] in Hargs0. subst a0.
+  assert (Hls : length (a ++ lbr :: m ++ [rbr]) = length a + length m + 2)
+    by (rewrite app_length; cbn [length]; rewrite app_length; cbn [length]; lia).
+  replace (substr (a ++ lbr :: m ++ [rbr]) (length a + 1) (length (a ++ lbr :: m ++ [rbr]) - 1))
+    with (@Ok bytes m) in H.
+  2:{ pose proof (substr_mid (a ++ [lbr]) m [rbr]) as Hs.
+      rewrite <- app_assoc in Hs. cbn [app] in Hs. rewrite app_length in Hs. cbn [length] in Hs.
+      rewrite Hls. replace (length a + length m + 2 - 1) with (length a + 1 + length m) by lia.
+      symmetry. exact Hs. }
+  cbn [bind] in H. rewrite bind_finish_norm, type_list_loop_acc in H.
+  destruct (loop_acc (parse fixed (S f')) fixed m 0 [] []) as [[st l|e]| |] eqn:El; cbn [bind finish] in H; try discriminate.
+  inversion H; subst t. clear H.
+  apply loop_acc_print_inv in El; [|intros x t Hx; eapply IH; exact Hx].
+  destruct El as [Hne Hj]. cbn [map sepcat concat app] in Hj.
+  destruct l as [|x l]; [congruence|]. rewrite print_args, Hj.
+  rewrite print_leaf in Hprint0. rewrite Hprint0. reflexivity.
+Qed.
+
+Lemma registers_exactly : forall (tracker : Type) (add : tracker -> bytes -> tracker) (self : bytes)
+    (paths : tracker -> list bytes),
+  (forall tr p q, In q (paths (add tr p)) <-> q = p \/ In q (paths tr)) ->
+  forall t tr q,
+    In q (paths (fold_left add (foreign self t) tr)) <->
+    (In q (all_paths t) /\ q <> [] /\ q <> self) \/ In q (paths tr).
+Proof.
+  intros tracker add self paths Hadd t tr q.
+  rewrite (registered_fold tracker add paths Hadd), foreign_iff. tauto.
+Qed.
+
+Lemma roundtrip_refuted_before_fix :
+  exists t, wf t /\ parse_type_ref false (print t) <> Ok (PT t).
+Proof.
+  exists (TRef [] (bs "M") [TRef [] (bs "L") [TRef [] (bs "P") [TRef [] (bs "a") []; TRef [] (bs "b") []]; TRef [] (bs "c") []]]).
+  split; [vm_compute; reflexivity | vm_compute; discriminate].
+Qed.
+
+Lemma parse_print_sentence : forall t, wf t ->
+  exists t', parse_type_ref true (print t) = Ok (PT t') /\ print t' = print t.
+Proof.
+  intros t Hwf. exists t. split; [|reflexivity]. unfold parse_type_ref. apply roundtrip; [exact Hwf|lia].
+Qed.
+
+Lemma parse_type_ref_total : forall fixed s, exists r, parse_type_ref fixed s = Ok r.
+Proof. intros fixed s. apply parse_total. lia. Qed.
